@@ -63,6 +63,13 @@ def _inrange_bit_read(i, value, size_f):
     return bool(covered) and inside >= len(reads)
 
 
+def _with_derived(prog, conds):
+    """path conditions with every read of a maintained derived field of the bit vector (say _top = _size - 1) replaced by its formula"""
+    from ..common import expand_derived
+    from ..expr import norm as _norm
+    return [_norm(expand_derived(prog, CLS, c)) for c in conds]
+
+
 def count_maintained(prog, fld):
     """is self.<fld> kept equal to the number of set bits by EVERY writer of the byte array?  (the only way a remembered population
     count can be returned instead of a recount).  Decision table per returning path: a set-store only where the bit was clear, with
@@ -199,6 +206,7 @@ def check(prog, rep, tier):
             u0, us = set(), set()
             okpaths = True
             for (p, kind, index, value, conds, loc, e) in accesses:
+                conds = _with_derived(prog, conds)  # a remembered size - 1 (highest valid index) reads as size - 1
                 o0 = path_orderings(conds, ip, C(0))
                 os_ = path_orderings(conds, ip, size_f)
                 o0s = path_orderings([strip_epochs(c) for c in conds], ip, size_f)
@@ -228,7 +236,7 @@ def check(prog, rep, tier):
                 # the rejecting paths must cover lt-0 and ge-size
                 cov0, covs = set(), set()
                 for p in rej:
-                    cs = all_conds(p)
+                    cs = _with_derived(prog, all_conds(p))
                     cov0 |= path_orderings(cs, ip, C(0))
                     covs |= path_orderings(cs, ip, size_f)
                 if LT in cov0 and {EQ, GT} <= covs:
@@ -466,7 +474,8 @@ def check(prog, rep, tier):
         want = norm(("call", ("ext", "math", "ceil"), (("bin", "/", ("p", "size"), C(8)),), ()))
         want2 = norm(("bin", "//", ("bin", "+", ("p", "size"), C(7)), C(8)))  # the integer spelling of ceil(size / 8)
         want3 = norm(("un", "-", ("bin", "//", ("un", "-", ("p", "size")), C(8))))
-        if sb in (want, want2, want3):
+        want4 = norm(("bin", "+", ("bin", "//", ("bin", "-", ("p", "size"), C(1)), C(8)), C(1)))  # ((size - 1) // 8) + 1, for size >= 1
+        if sb in (want, want2, want3, want4):
             rep.ok("C20.alloc", "size_bytes = ceil(size/8)")
         else:
             rep.bad("C20.alloc", f"{CLS}.__init__", f"_size_bytes = {nshow(sb)}", f"_size_bytes is {nshow(sb)}, expected ceil(size/8)", init.where())
@@ -481,8 +490,16 @@ def check(prog, rep, tier):
             rep.bad("C20.alloc", f"{CLS}.__init__", f"{ARR} = {nshow(arr)}", "allocation is not array('B',[0]) * size_bytes", init.where())
         if fs.get("_size") == ("p", "size"):
             iv = Intervals(all_conds(p), {}, crange).iv(("p", "size"))
-            if iv[0] is not None and iv[0] >= 1:
+            if iv[0] is None:
+                # the guard may be written on a shifted value (top = size - 1; top < 0): decide size vs 1 by orderings
+                o1 = path_orderings([strip_epochs(c) for c in all_conds(p)], ("p", "size"), C(1))
+                if o1 <= {EQ, GT}:
+                    iv = (1 if EQ in o1 else 2, iv[1])
+            if iv[0] is not None and iv[0] == 1:
                 rep.ok("C20.alloc", "size kept, size >= 1 on construction")
+            elif iv[0] is not None and iv[0] > 1:
+                rep.bad("C20.alloc", f"{CLS}.__init__", "size guard rejects valid sizes", f"construction succeeds only with size in {fmt_iv(iv)}: a bit vector of size 1 .. {iv[0] - 1} is refused",
+                        init.where())
             else:
                 rep.bad("C20.alloc", f"{CLS}.__init__", "size guard", f"construction succeeds with size in {fmt_iv(iv)}", init.where())
         else:
@@ -525,6 +542,9 @@ MUTANTS = [
            "(0 if (self._bitarray[x // 8] & (1 << (x % 7))) == 0 else 1)"), rule="C20."),
     Mutant("set_bit delegates to the item store (same result)", _U, replace_stmt("Bitarray", "set_bit", "self._bitarray[b] = ", "self[idx] = 1"), expect="silent"),
     Mutant("set_bit delegates to the item store with 0", _U, replace_stmt("Bitarray", "set_bit", "self._bitarray[b] = ", "self[idx] = 0"), rule="C20.addressing"),
+    Mutant("constructor refuses size 1", _U, replace_expr("Bitarray", "__init__", "size <= 0", "size <= 1"), rule="C20.alloc"),
+    Mutant("constructor guard spelled size < 1 (same meaning)", _U, replace_expr("Bitarray", "__init__", "size <= 0", "size < 1"), expect="silent"),
+    Mutant("constructor guard on top = size - 1 (same meaning)", _U, replace_expr("Bitarray", "__init__", "size <= 0", "size - 1 < 0"), expect="silent"),
     Mutant("guard spelled idx > size - 1 (same meaning)", _U, replace_expr("Bitarray", "set_bit", "idx >= self._size", "idx > self._size - 1"), expect="silent"),
     Mutant("guard spelled not 0 <= idx (same meaning)", _U, replace_expr("Bitarray", "check_bit", "idx < 0", "not idx >= 0"), expect="silent"),
 ]
